@@ -921,6 +921,10 @@ func exec(e *lp.Exec) {
 			execResp(e, cline, lines, tr, lg)
 		case len(f) > 1 && f[1] == "body":
 			execBody(e, cline, lines, tr, lg)
+		case len(f) > 1 && f[1] == "conn":
+			execConn(e, cline, lines, tr, lg)
+		case len(f) > 1 && f[1] == "ws":
+			execWS(e, cline, lines, tr, lg)
 		default:
 			e.P("> %s", cline)
 			e.P("bad-op")
